@@ -475,6 +475,20 @@ def cmd_toprim(a, kind, cell=None):
                     out.append(Problem('C08', 'TryFrom<Big> for %s: out-of-range value not rejected with the original' % ty, 'got=%s' % tv))
                 else:
                     out += chk_big('C08', parse_tok(tv[1:]), a, 'TryFrom<Big> for %s: error must carry the original value back' % ty, kind)
+        if kind == 'I':
+            tf, tv = res.named.get('tf_big'), res.named.get('tv_big')
+            if tf == 'P' or tv == 'P':
+                out.append(Problem({'C08', 'C14'}, 'TryFrom<(&)BigInt> for BigUint panicked', ''))
+            elif a >= 0:
+                out += chk_big('C08', parse_tok(tf) if tf else None, a, 'BigUint::try_from(&BigInt)', 'U')
+                out += chk_big('C08', parse_tok(tv) if tv else None, a, 'BigUint::try_from(BigInt)', 'U')
+            else:
+                if tf != 'E':
+                    out.append(Problem('C08', 'BigUint::try_from(&negative) did not fail', 'got=%s' % tf))
+                if not (tv and tv[0] == 'E' and len(tv) > 1):
+                    out.append(Problem('C08', 'BigUint::try_from(negative) did not fail with the original', 'got=%s' % tv))
+                else:
+                    out += chk_big('C08', parse_tok(tv[1:]), a, 'BigUint::try_from(BigInt): error must carry the original value back', 'I')
         return out
 
     return Cmd(line, check, cell=cell, prop='C08')
@@ -677,7 +691,8 @@ def cmd_new(ws, kindsign, cell=None):
 
 
 def cmd_iter(width, a, kind, ops, cell=None):
-    """ops: list of 'n','b','t<k>','l','h','L','c'"""
+    """ops: list of 'n','b','t<k>','k<k>' (nth_back),'l','h' and one final consumer: 'L' last,'c' count,'F' fold,'R' rfold,
+    'C' collect,'V' rev().collect,'S' sum,'E' (&mut it).for_each then len"""
     line = 'iter %d %s %s' % (width, tok(a, kind), ' '.join(ops))
     digits = words(abs(a), width)
 
@@ -715,6 +730,25 @@ def cmd_iter(width, a, kind, ops, cell=None):
                 consumed = True
             elif o == 'c':
                 want = len(dq)
+                consumed = True
+            elif o[0] == 'k':
+                k = int(o[1:])
+                want = None
+                for _ in range(k + 1):
+                    want = dq.pop() if dq else None
+                    if want is None:
+                        dq.clear()
+                        break
+            elif o in ('F', 'C', 'R', 'V', 'E'):
+                lst = list(dq)
+                if o in ('R', 'V'):
+                    lst.reverse()
+                if o == 'E':
+                    lst.append(0)
+                want = parse_tok('q' + ','.join('%x' % x for x in lst))
+                consumed = True
+            elif o == 'S':
+                want = sum(dq)
                 consumed = True
             if got is PANIC:
                 out.append(Problem({'C09', 'C14'}, what + ': panicked', 'want=%r' % (want,)))
